@@ -24,6 +24,8 @@ def dispatch (op : String) (payload : Json) : R Json :=
   | "imports" => C12.handle payload
   | "diag_run" => C15.handle payload
   | "diag_render" => C15.handleRender payload
+  | "diag_scoped" => C15.handleScoped payload
+  | "diag_scopes" => C15.handleScopes payload
   | "resolve_import" => C06.handle payload
   | "import_symbols" => C06.handleSymbols payload
   | "import_spec" => C06.handleSpec payload
